@@ -20,6 +20,9 @@ from ..core import Machinery, frac, close, validate_trace
 TS = 250.0        # Kelvin per temperature unit of the exhaustive configs
 ST = 100          # scale of logged temperatures (range events)
 SQ = 1024         # quantisation of the assembled Guillot relation
+RTOL = 1e-9       # float evaluation of chains of <= ~100 additions (cumulative-sum moving average), DESIGN 2.4
+
+JVM = {'JAVA_TOOL_OPTIONS': '-Xss64m'}     # deep (not wide) operator nesting on 100-layer profiles
 
 
 def quiet():
@@ -209,17 +212,17 @@ def run_vector(ctx, v, stats):
         return
     ok('finite_positive', np.all(np.isfinite(prof)) and np.all(prof > 0), 'profile %r' % prof)
     lo, hi = TS * v['lo'], TS * v['hi']
-    ok('within_control_range', np.all(prof >= lo * (1 - 1e-12)) and np.all(prof <= hi * (1 + 1e-12)),
+    ok('within_control_range', np.all(prof >= lo * (1 - RTOL)) and np.all(prof <= hi * (1 + RTOL)),
        'controls [%r, %r] profile %r' % (lo, hi, prof))
     if v['lo'] == v['hi']:
-        ok('constant_when_controls_equal', np.all(np.abs(prof - lo) <= 1e-12 * lo), 'profile %r' % prof)
+        ok('constant_when_controls_equal', np.all(np.abs(prof - lo) <= RTOL * lo), 'profile %r' % prof)
     if tie:
         return
     exp = np.array([TS * float(frac(c)) for c in v['prof']])
-    same = np.all(np.abs(prof - exp) <= 1e-11 * np.abs(exp))
+    same = np.all(np.abs(prof - exp) <= RTOL * np.abs(exp))
     if kind == 'array' and v['pmode'] == 'none' and not same:
         # the statement does not fix the orientation of an array that is resampled: accept the mirror image
-        rev = np.all(np.abs(prof - exp[::-1]) <= 1e-11 * np.abs(exp))
+        rev = np.all(np.abs(prof - exp[::-1]) <= RTOL * np.abs(exp))
         stats['array_mirrored'] = stats.get('array_mirrored', 0) + int(bool(rev))
         same = rev
     ok('exact_value', same, 'n=%d got %r exact %r' % (n, prof, exp))
@@ -279,8 +282,8 @@ def range_event(r):
         fin = np.isfinite(prof)
         e.update(len=int(prof.shape[0]), v=[int(round(x * ST)) if f and abs(x) < 1e7 else -1 for x, f in zip(prof, fin)],
                  nonfinite=int((~fin).sum()), nonpos=int((prof[fin] <= 0).sum()),
-                 below=int((prof[fin] < lo * (1 - 1e-12)).sum()), above=int((prof[fin] > hi * (1 + 1e-12)).sum()),
-                 constbad=int((np.abs(prof[fin] - lo) > 1e-12 * lo).sum()) if lo == hi else 0)
+                 below=int((prof[fin] < lo * (1 - RTOL)).sum()), above=int((prof[fin] > hi * (1 + RTOL)).sum()),
+                 constbad=int((np.abs(prof[fin] - lo) > RTOL * lo).sum()) if lo == hi else 0)
         detail = 'min %r max %r controls [%r, %r]' % (float(np.nanmin(prof)), float(np.nanmax(prof)), lo, hi)
     return e, '%s %s' % (outcome, detail)
 
@@ -488,7 +491,7 @@ def validate(ctx, recipes, label, canary=True):
         e['id'] = i
         events.append(e)
         details.append(d)
-    accepted, bad, res = validate_trace('Trace_Temperature', 'Trace_Temperature.cfg', events, timeout=1500)
+    accepted, bad, res = validate_trace('Trace_Temperature', 'Trace_Temperature.cfg', events, timeout=1500, env=JVM)
     ctx.add_tlc('trace-' + label, res, counts=False)
     if res.postcondition_false and not bad:
         raise Machinery('trace spec did not consume the whole trace:\n' + res.out[-1500:])
@@ -528,7 +531,7 @@ def validate(ctx, recipes, label, canary=True):
             raise Machinery('no event available for the canary (%s)' % label)
         for k, c in enumerate(cl):
             c['id'] = k
-        ok2, bad2, _ = validate_trace('Trace_Temperature', 'Trace_Temperature.cfg', cl)
+        ok2, bad2, _ = validate_trace('Trace_Temperature', 'Trace_Temperature.cfg', cl, env=JVM)
         if ok2 or len(bad2) != len(cl):
             raise Machinery('canary accepted: trace validation of %s is vacuous (%r of %d)' % (label, bad2, len(cl)))
     return len(events)
